@@ -59,6 +59,8 @@ type FuncContract struct {
 	Pure     bool
 	Inline   bool // always inline at call sites (even if contracted)
 	Uf       bool // ghost function kept as a named function: its definition is unfolded at ground arguments only, never under a quantifier
+	EscapeExempt *Clause // condition (over the parameters) under which raw texts may be written: comments, directives, ...
+	EscapesValues bool // C05: every text derived from an interface value that this function writes must come from escapeChars while xmlEscapeChars is on
 	InlineOnly bool // never verified on its own: its body is verified inlined into every verified caller (ownership data-flow obligations are still generated for it)
 	Loops    map[int]*LoopContract
 	IsInit   bool
@@ -252,7 +254,7 @@ func ParseContracts(fset *token.FileSet, files []*ast.File) *Contracts {
 					cur = fc
 				case "inv":
 					cs.InvExprs = append(cs.InvExprs, &Clause{Kind: "inv", Expr: expandSugar(rest), Raw: rest, Line: line, File: fname})
-				case "property", "old", "requires", "ensures", "modifies", "trusted", "pure", "inline", "inline-only", "uf", "invariant", "decreases", "fresh-result", "owns-lists", "replay-via", "depends-only", "opaque-result", "opaque", "havoc":
+				case "property", "old", "requires", "ensures", "modifies", "trusted", "pure", "inline", "inline-only", "uf", "escapes-values", "escape-exempt", "invariant", "decreases", "fresh-result", "owns-lists", "replay-via", "depends-only", "opaque-result", "opaque", "havoc":
 					if cur == nil {
 						errf("clause outside func")
 						continue
@@ -310,6 +312,10 @@ func ParseContracts(fset *token.FileSet, files []*ast.File) *Contracts {
 						cur.Inline = true
 					case "uf":
 						cur.Uf = true
+					case "escapes-values":
+						cur.EscapesValues = true
+					case "escape-exempt":
+						cur.EscapeExempt = &Clause{Kind: kw, Expr: expandSugar(rest), Raw: rest, Line: line, File: fname}
 					case "inline-only":
 						cur.Inline = true
 						cur.InlineOnly = true
@@ -607,6 +613,10 @@ func (g *GhostGen) Generate() (string, []string) {
 		if fc.Decr != nil {
 			fc.Decr.Fn = fmt.Sprintf("verif__%s__decr", fc.Mangled)
 			fmt.Fprintf(&body, "func %s(%s) int { return %s }\n", fc.Decr.Fn, g.plist(params), fc.Decr.Expr)
+		}
+		if fc.EscapeExempt != nil {
+			fc.EscapeExempt.Fn = fmt.Sprintf("verif__%s__escexempt", fc.Mangled)
+			fmt.Fprintf(&body, "func %s(%s) bool { return %s }\n", fc.EscapeExempt.Fn, g.plist(params), fc.EscapeExempt.Expr)
 		}
 		for i, c := range fc.Requires {
 			c.Fn = fmt.Sprintf("verif__%s__req%d", fc.Mangled, i)
